@@ -206,7 +206,11 @@ def mutants_of(rel, text):
 def all_mutants(files=None, ops=None):
     res = []
     base = REPO / 'amqpstorm'
-    for path in sorted(base.rglob('*.py')):
+    prio = ['rpc.py', 'connection.py', 'io.py', 'heartbeat.py', 'channel0.py', 'channel.py', 'message.py', 'uri_connection.py',
+            'management/http_client.py', 'compatibility.py', 'basic.py']
+    paths = sorted(base.rglob('*.py'), key=lambda q: (prio.index(str(q.relative_to(base))) if str(q.relative_to(base)) in prio else len(prio),
+                                                     str(q)))
+    for path in paths:
         rel = str(path.relative_to(base))
         if 'tests' in path.parts or rel in SKIP_FILES:
             continue
@@ -216,6 +220,8 @@ def all_mutants(files=None, ops=None):
         for m in mutants_of(rel, text):
             if ops and m['op'] not in ops:
                 continue
+            if m['op'] == 'SWAP' and m['func'].endswith('__init__'):
+                continue          # independent attribute initialisations: equivalent mutants
             m['file'] = rel
             m['id'] = '%s:%s:%d:%s:%s' % (rel, m['func'], m['line'], m['op'], m['hash'])
             res.append(m)
